@@ -59,7 +59,7 @@ func runC06(c *Ctx) {
 
 	var clients []*TClient
 	for i := 0; i < ns; i++ {
-		s := w.NewSess(fmt.Sprintf("s%d", i), "r1", g.Bool(), qs[g.Intn(len(qs))], nil)
+		s := NewAnySess(c, w, g, fmt.Sprintf("s%d", i), "r1", qs[g.Intn(len(qs))], nil)
 		beh := []int{BehEcho, BehEcho, BehError, BehIgnore, BehProgress, BehSlow, BehSlow}[g.Intn(7)]
 		cl := NewTClient(s, beh, time.Duration([]int{1, 50, 2000, 70000}[g.Intn(4)])*time.Millisecond)
 		if !s.Join() {
